@@ -370,3 +370,15 @@ impl<S: BarrierSemantics> Barrier<S::VM> for SATBBarrier<S> {
         unimplemented!()
     }
 }
+
+#[cfg(feature = "mmtk_verif")]
+impl<S: BarrierSemantics> SATBBarrier<S> {
+    /// Verification hook: the private semantics object of this barrier.
+    pub fn verif_semantics_mut(&mut self) -> &mut S {
+        &mut self.semantics
+    }
+    /// Verification hook: the private [`SATBBarrier::object_is_unlogged`].
+    pub fn verif_object_is_unlogged(&self, object: ObjectReference) -> bool {
+        self.object_is_unlogged(object)
+    }
+}
